@@ -42,7 +42,7 @@ def compute(R, form, avals, ph, so, meas):
     return R.ComputeQSPResponse(adat=a, phiset=p, signal_operator=so, measurement=meas)
 
 
-def resp_case(ctx, R, LP, rng, n, given=None):
+def resp_case(ctx, R, LP, rng, n, given=None, py_override=None, extra_replay=None):
     d = ctx.driver()
     ph, pat = gens.phases(rng, n)
     so = str(rng.choice(["Wx", "Wz"]))
@@ -53,12 +53,13 @@ def resp_case(ctx, R, LP, rng, n, given=None):
     if given is not None:
         ph, pat, so, meas, avals = given[:5]
         form = given[5] if len(given) > 5 else form
-    py = py_call(lambda: compute(R, form, avals, ph, so, meas)["pdat"])
+    py = py_override if py_override is not None else py_call(lambda: compute(R, form, avals, ph, so, meas)["pdat"])
     ctx.count("model:%s/%s" % (so, meas))
     ctx.count("calling-form:" + form)
     ctx.count("phases:" + pat)
     ctx.case([so, meas, ph, avals, form], n >= 2, {"so": so, "meas": meas, "n": n, "phases": ph[:4], "a": avals, "form": form})
     replay = {"signal_operator": so, "measurement": meas, "phases": ph, "a": avals, "calling_form": form}
+    replay.update(extra_replay or {})
     if py[0] != "ok":
         ctx.violation("resp:raises", "ComputeQSPResponse raised on valid arguments: %s" % str(py[1])[:100], replay)
         return
@@ -96,6 +97,32 @@ def resp_case(ctx, R, LP, rng, n, given=None):
             ctx.violation("resp:Wx-x-vs-Wz-z", "Wx/x and Wz/z responses differ", dict(replay, diff=float(np.max(np.abs(rx - rz)))))
         elif np.max(np.abs(rz - ev)) > tol:
             ctx.violation("resp:vs-IPoly", "Wz/z response differs from IPoly(e^{i arccos a})", dict(replay, diff=float(np.max(np.abs(rz - ev)))))
+
+
+def history_case(ctx, R, LP, rng, n):
+    """the caller keeps ONE phase container, evaluates, edits it in place (a parameter sweep, a convention shift of the end
+    phases), and evaluates again: every answer must be for the phases the container holds at that moment"""
+    ph, pat = gens.phases(rng, n)
+    so = str(rng.choice(["Wx", "Wz"]))
+    meas = rng.choice(["x", "z", None])
+    meas = None if meas is None else str(meas)
+    kind = str(rng.choice(["ndarray", "list"]))
+    box = np.array(ph) if kind == "ndarray" else list(ph)
+    avals = [float(rng.uniform(-1, 1)), float(rng.choice([1.0, -1.0, 0.0, 0.4]))]
+    kw = {"signal_operator": so}
+    if meas is not None:
+        kw["measurement"] = meas
+    edits = []
+    for step in range(3):
+        py = py_call(lambda: np.array(R.ComputeQSPResponse(np.array(avals), box, **kw)["pdat"]).copy())
+        ctx.count("history:evaluation-after-%d-edits" % step)
+        cur = [float(x) for x in box]
+        resp_case(ctx, R, LP, rng, n, given=(cur, pat, so, meas, avals, "kw"), py_override=py,
+                  extra_replay={"history": "one %s container, evaluated after each in-place edit" % kind, "edits_before_this_call": list(edits)})
+        k = int(rng.integers(0, n))
+        h = float(rng.choice([0.7, -0.3, math.pi / 4, 1e-3]))
+        box[k] += h
+        edits.append([k, h])
 
 
 def refuse_case(ctx, R, rng):
@@ -174,6 +201,8 @@ def run(tier, seed):
                 n = int(ctx.rng.integers(2, 9))
                 ph, pat = gens.phases(ctx.rng, n)
                 resp_case(ctx, R, LP, ctx.rng, n, given=(ph, pat, so, meas, [float(ctx.rng.uniform(-1, 1)), 0.37], form))
+    for _ in range(12 if tier == "quick" else 120):
+        history_case(ctx, R, LP, ctx.rng, int(ctx.rng.integers(1, 12)))
     sweep_all_lengths(ctx, R, LP, ctx.rng, tier)
     for _ in range(10 if tier == "quick" else 50):
         refuse_case(ctx, R, ctx.rng)
